@@ -128,6 +128,19 @@ def run(ctx):
             if isinstance(r, Err) or r:
                 found.append({"key": {"seq": rq[1][0], "struct": "".join(rq[1][1]), "ops": rq[1][2]}, "input": rq[1],
                               "what": str(r), "snippet": f"# harness op c03_fresh_compare {rq[1]!r} (harness/impl/views.py)"})
+        # explicit turn counts of the object's generators (beyond one full turn too) at any point of a history: rotate(t) and
+        # rotate_pt(t) describe the same rotations, starting with the current one (direct statement, no model request)
+        probe2 = []
+        for rq in rng.sample(reqs, min(len(reqs), 600 if quick else 6000)):
+            sq_, st_, ops_ = rq[1]
+            n_ = st_.count("+") + 1
+            extra = [[rng.choice(["rotate_t", "rotate_pt_t"]), rng.choice([0, 1, n_ - 1, n_, n_ + 1, n_ + 2, 2 * n_, 2 * n_ + 1, 3 * n_ + 2])] for _ in range(2)]
+            k_ = rng.randrange(len(ops_) + 1)
+            probe2.append(("c03_fresh_compare", [sq_, st_, ops_[:k_] + extra[:1] + ops_[k_:] + extra[1:]]))
+        for rq, r in zip(probe2, run_impl(probe2)):
+            if isinstance(r, Err) or r:
+                found.append({"key": {"seq": rq[1][0], "struct": "".join(rq[1][1]), "ops": rq[1][2]}, "input": rq[1],
+                              "what": str(r), "snippet": f"# harness op c03_fresh_compare {rq[1]!r} (harness/impl/views.py)"})
         impl = run_impl(reqs[:3000])
         for rq, r in zip(reqs[:3000], impl):
             if isinstance(r, Err):
